@@ -297,7 +297,18 @@ func worker() {
 	from, _ := strconv.Atoi(os.Getenv("VERIF_C10_FROM"))
 	n, _ := strconv.Atoi(os.Getenv("VERIF_C10_N"))
 
-	st, closer, err := openState(path, marshaler, nil)
+	var wrap func(inmem.BackingStore) inmem.BackingStore
+
+	// VERIF_C10_SELFKILL=<point>:<n> - die (SIGKILL to self) right before / after the n-th backing-store Put / Destroy of this
+	// process: "the store has not been asked yet" vs "the store has committed but memory and the caller have not been told"
+	if sk := os.Getenv("VERIF_C10_SELFKILL"); sk != "" {
+		point, ns, _ := strings.Cut(sk, ":")
+		n, _ := strconv.Atoi(ns)
+
+		wrap = func(b inmem.BackingStore) inmem.BackingStore { return &suicidalStore{inner: b, point: point, n: n} }
+	}
+
+	st, closer, err := openState(path, marshaler, wrap)
 	if err != nil {
 		fmt.Println("FATAL", err)
 		os.Exit(3)
@@ -372,6 +383,62 @@ func worker() {
 	emit("DONE", map[string]int{"next": from + n})
 }
 
+// suicidalStore kills the process at an exact point relative to the n-th Put / Destroy of the real store.
+type suicidalStore struct {
+	inner inmem.BackingStore
+	point string // beforePut | afterPut | beforeDestroy | afterDestroy
+	n     int
+	mu    sync.Mutex
+	puts  int
+	dests int
+}
+
+func (s *suicidalStore) die() {
+	_ = syscall.Kill(os.Getpid(), syscall.SIGKILL)
+
+	select {} // never returns: the signal is on its way
+}
+
+func (s *suicidalStore) Load(ctx context.Context, h inmem.LoadHandler) error { return s.inner.Load(ctx, h) }
+
+func (s *suicidalStore) Put(ctx context.Context, t resource.Type, r resource.Resource) error {
+	s.mu.Lock()
+	s.puts++
+	k := s.puts
+	s.mu.Unlock()
+
+	if s.point == "beforePut" && k == s.n {
+		s.die()
+	}
+
+	err := s.inner.Put(ctx, t, r)
+
+	if s.point == "afterPut" && k == s.n {
+		s.die()
+	}
+
+	return err
+}
+
+func (s *suicidalStore) Destroy(ctx context.Context, t resource.Type, p resource.Pointer) error {
+	s.mu.Lock()
+	s.dests++
+	k := s.dests
+	s.mu.Unlock()
+
+	if s.point == "beforeDestroy" && k == s.n {
+		s.die()
+	}
+
+	err := s.inner.Destroy(ctx, t, p)
+
+	if s.point == "afterDestroy" && k == s.n {
+		s.die()
+	}
+
+	return err
+}
+
 // ---- parent --------------------------------------------------------------------------------------------------------------
 
 func TestC10(t *testing.T) {
@@ -384,7 +451,8 @@ func TestC10(t *testing.T) {
 			"instead, and every acknowledged result must match the model (as if no restart happened). distinct = (marshaler, kill point / failing call index); non-trivial = the kill landed with " +
 			"an operation in flight, or the rejected call was a write")
 		c.Assume("crash = process death (SIGKILL) with the page cache intact; power loss / torn sectors cannot be produced here")
-		c.Require("store_rejections_put", "store_rejections_destroy", "store_rejections_load", "kills", "kills_with_inflight_op", "restarts_checked", "acked_ops_checked", "fields_compared", "marshalers_used")
+		c.Require("store_rejections_put", "store_rejections_destroy", "store_rejections_load", "kills", "kills_with_inflight_op", "restarts_checked", "acked_ops_checked", "fields_compared", "marshalers_used",
+			"kills_at_exact_store_call_beforePut", "kills_at_exact_store_call_afterPut")
 
 		dir, err := os.MkdirTemp("", "c10")
 		if err != nil {
@@ -672,12 +740,33 @@ type childRun struct {
 	order   []string
 	done    bool
 	fatal   string
+	// signaled: the child died from a signal (the self-kill / kernel-injected kill landed)
+	signaled bool
 }
 
 // runChild starts a worker and kills it when the trigger line shows up (kind "INTENT"/"ACK", index k); k < 0 = let it finish.
 func runChild(path, marshaler string, seed uint64, from, n int, killKind string, killK int) (*childRun, error) {
 	cmd := exec.Command(os.Args[0], "-test.run", "^$")
-	cmd.Env = append(os.Environ(), "VERIF_CHILD=c10worker", "VERIF_C10_DB="+path, "VERIF_C10_MARSHALER="+marshaler,
+
+	var extraEnv []string
+
+	switch {
+	case strings.HasPrefix(killKind, "SELF-"):
+		// the worker kills itself right before/after its killK-th store call of that kind (call counts restart with each process)
+		extraEnv = append(extraEnv, fmt.Sprintf("VERIF_C10_SELFKILL=%s:%d", strings.TrimPrefix(killKind, "SELF-"), killK))
+	case strings.HasPrefix(killKind, "STRACE-"):
+		// the kernel-side injector: SIGKILL on entry to the killK-th pwrite64 / fdatasync of a thread = death inside a bbolt commit
+		sc := strings.TrimPrefix(killKind, "STRACE-")
+		cmd = exec.Command("strace", "-f", "-qq", "-o", "/dev/null", "-e", "trace="+sc, "-e", fmt.Sprintf("inject=%s:signal=SIGKILL:when=%d", sc, killK),
+			os.Args[0], "-test.run", "^$")
+	case strings.HasPrefix(killKind, "STRACEERR-"):
+		// the killK-th pwrite64 of a thread fails with EIO: bbolt itself rejects a commit (no process death)
+		sc := strings.TrimPrefix(killKind, "STRACEERR-")
+		cmd = exec.Command("strace", "-f", "-qq", "-o", "/dev/null", "-e", "trace="+sc, "-e", fmt.Sprintf("inject=%s:error=EIO:when=%d", sc, killK),
+			os.Args[0], "-test.run", "^$")
+	}
+
+	cmd.Env = append(append(os.Environ(), extraEnv...), "VERIF_CHILD=c10worker", "VERIF_C10_DB="+path, "VERIF_C10_MARSHALER="+marshaler,
 		fmt.Sprint("VERIF_C10_SEED=", seed), fmt.Sprint("VERIF_C10_FROM=", from), fmt.Sprint("VERIF_C10_N=", n), "GORACE=halt_on_error=1")
 
 	stdout, err := cmd.StdoutPipe()
@@ -733,7 +822,18 @@ func runChild(path, marshaler string, seed uint64, from, n int, killKind string,
 		}
 	}
 
-	_ = cmd.Wait()
+	werr := cmd.Wait()
+
+	if ee, ok := werr.(*exec.ExitError); ok { //nolint:errorlint
+		if ws, ok := ee.Sys().(syscall.WaitStatus); ok && ws.Signaled() {
+			run.signaled = true
+		}
+
+		// strace re-raises the tracee's fatal signal on itself, or exits with 128+signal
+		if ee.ExitCode() == 128+int(syscall.SIGKILL) {
+			run.signaled = true
+		}
+	}
 
 	return run, nil
 }
@@ -799,7 +899,7 @@ func crashes(c *vk.C, dir string) {
 	var jobs []job
 
 	segment := 24
-	nJobs := c.N(24, 900)
+	nJobs := c.N(16, 900)
 
 	for j := 0; j < nJobs; j++ {
 		jb := job{marshaler: marshalers[j%len(marshalers)], seed: uint64(c.Seed)*1000 + uint64(j)}
@@ -814,6 +914,46 @@ func crashes(c *vk.C, dir string) {
 		}
 
 		jobs = append(jobs, jb)
+	}
+
+	// exact crash points relative to the store call: the worker kills itself right before / after its n-th backing-store Put /
+	// Destroy ("store not asked yet" / "store committed, memory and caller not told"), n enumerated
+	points := []string{"SELF-beforePut", "SELF-afterPut", "SELF-beforeDestroy", "SELF-afterDestroy"}
+	nSelf := c.N(4, 24)
+
+	for pi, pt := range points {
+		for n := 0; n < nSelf; n++ {
+			maxN := segment / 2
+			if strings.HasSuffix(pt, "Destroy") {
+				maxN = 4 // (destroys are rarer in the stream)
+			}
+
+			jb := job{marshaler: marshalers[(pi*nSelf+n+int(c.Seed))%len(marshalers)], seed: uint64(c.Seed)*1000 + 500 + uint64(pi*nSelf+n)}
+			for cy := 0; cy < 2+rng.IntN(2); cy++ {
+				jb.kills = append(jb.kills, [2]any{pt, (n + cy*3 + int(c.Seed)) % maxN})
+			}
+
+			jobs = append(jobs, jb)
+		}
+	}
+
+	// death inside a bbolt commit: SIGKILL injected by the kernel-side tracer on entry to the n-th pwrite64 / fdatasync of a thread;
+	// and a bbolt-internal rejection: the n-th pwrite64 fails with EIO (no death; the operation must fail and leave no trace)
+	if _, err := exec.LookPath("strace"); err == nil {
+		nTrace := c.N(3, 40)
+
+		for _, kind := range []string{"STRACE-pwrite64", "STRACE-fdatasync", "STRACEERR-pwrite64"} {
+			for n := 0; n < nTrace; n++ {
+				jb := job{marshaler: marshalers[(n+int(c.Seed))%len(marshalers)], seed: uint64(c.Seed)*1000 + 800 + uint64(n)}
+				for cy := 0; cy < 2; cy++ {
+					jb.kills = append(jb.kills, [2]any{kind, (n*3 + cy*5 + int(c.Seed)) % 14})
+				}
+
+				jobs = append(jobs, jb)
+			}
+		}
+	} else {
+		c.Count("strace_unavailable", 1)
 	}
 
 	var wg sync.WaitGroup
@@ -839,7 +979,12 @@ func crashes(c *vk.C, dir string) {
 			for cy, kl := range jb.kills {
 				kind, off := kl[0].(string), kl[1].(int) //nolint:forcetypeassert
 
-				run, err := runChild(path, jb.marshaler, jb.seed, from, segment, kind, from+off)
+				killK := from + off
+				if strings.HasPrefix(kind, "S") { // SELF-* / STRACE*: the n-th call of this process, 1-based
+					killK = off + 1
+				}
+
+				run, err := runChild(path, jb.marshaler, jb.seed, from, segment, kind, killK)
 				if err != nil || run.fatal != "" {
 					c.Violation("crash-worker-failed", map[string]any{"err": fmt.Sprint(err), "fatal": run.fatal, "history": history})
 
@@ -878,6 +1023,14 @@ func crashes(c *vk.C, dir string) {
 					class, nv := predict(model, o)
 					c.Count("acked_ops_checked", 1)
 
+					if strings.HasPrefix(kind, "STRACEERR-") && strings.HasPrefix(a.Class, "other:") && class == "" {
+						// bbolt rejected the commit (injected EIO): the operation failed, so it must have had no effect - the model
+						// stays as it is and everything after it (later acks in this process, the dump after reopen) is judged against that
+						c.Count("bbolt_internal_rejections", 1)
+
+						continue
+					}
+
 					if a.Class != class {
 						c.Violation("acknowledged-result-differs-from-model", map[string]any{"marshaler": jb.marshaler, "op": o, "ack": a, "predicted": class, "model": model[o.ID], "history": history})
 
@@ -909,6 +1062,13 @@ func crashes(c *vk.C, dir string) {
 				history = append(history, fmt.Sprintf("cycle %d: from %d kill at %s %d; acked %d, in flight %d", cy, from, kind, from+off, len(run.acks), len(inflight)))
 
 				c.Count("kills", 1)
+
+				switch {
+				case strings.HasPrefix(kind, "SELF-") && run.signaled:
+					c.Count("kills_at_exact_store_call_"+strings.TrimPrefix(kind, "SELF-"), 1)
+				case strings.HasPrefix(kind, "STRACE-") && run.signaled:
+					c.Count("kills_inside_bbolt_commit_"+strings.TrimPrefix(kind, "STRACE-"), 1)
+				}
 
 				if len(inflight) > 0 {
 					c.Count("kills_with_inflight_op", 1)
